@@ -147,31 +147,36 @@ def run(ctx):
     twn = None
     for x in walk(gl[0]):
         pass
-    # tenv_wall_ids: immutable local -> find the `contains(tenv_wall_ids, ..)` call and take its receiver
+    # the envelope set: the collection whose `contains(.., wall id)` feeds WallProps.is_tenv (a Vec, a BTreeSet, ..), built by a chain over model.walls
     for sc in root.all_scopes():
         for b, t in sc.body.calls():
             from ..mir import callee_name
-            if short_callee(callee_name(t) or "") == "contains" and "slice" in (callee_name(t) or ""):
+            if short_callee(callee_name(t) or "") == "contains" and t["args"]:
                 recv = strip(sc.operand(t["args"][0]))
-                if recv[0] == "call" and short_callee(recv[1]) == "collect":
+                if recv[0] == "call" and short_callee(recv[1]) == "collect" and (iter_chain(recv).source_name() or "") == "model.walls":
                     twn = recv
-    ctx.require(twn is not None, "tenv_wall_ids not found")
+    ctx.require(twn is not None, "the envelope wall set (a collect over model.walls used through contains) was not found")
     ch = iter_chain(twn)
     fcl = [c for (a, c) in ch.steps if a == "filter"]
-    ctx.require(len(fcl) == 1 and (ch.source_name() or "") == "model.walls", "tenv_wall_ids is not a filter over model.walls")
-    fsc = Scope(prog, prog.fns[closure_id_of(strip(fcl[0]))], closure_env(strip(fcl[0])), ("elem", "W", ()), root)
+    ctx.require(len(fcl) >= 1 and all(a in ("iter", "filter", "map", "collect", "copied", "cloned") for a, _ in ch.steps), "the envelope wall set is not a filter chain over model.walls (%s)" % ch.adaptors())
+    fscs = [Scope(prog, prog.fns[closure_id_of(strip(c))], closure_env(strip(c)), ("elem", "W", ()), root) for c in fcl]
     bt = [v["name"] for v in prog.adt("bemodel::types::common::BoundaryType")["variants"]]
     bad = []
     for bnd, ti, ni in itertools.product(bt, (True, False), (True, False)):
         def atom(n, bnd=bnd, ti=ti, ni=ni):
             n = strip(n)
+            if n[0] == "un" and n[1] == "Not":
+                v = atom(n[2])
+                return None if v is None else ("0" if v == "1" else "1")
             if n[0] == "discr" and (leaf_name(strip(n[1])) or "").endswith(".bounds"):
                 return str(bt.index(bnd))
             d = origin_desc(n)
-            if n[0] == "call" and short_callee(n[1]) == "map_or":
-                if "next_to" in d:
+            # "is the space inside the envelope" lookups: map_or(false, ..) on a space lookup, or a local closure applied to a space id
+            if n[0] == "call" and (short_callee(n[1]) in ("map_or", "call", "is_some_and", "unwrap_or") or "{closure" in short_callee(n[1])):
+                full = show(n)
+                if "next_to" in full:
                     return "1" if ni else "0"
-                if ".space" in d:
+                if ".space" in full:
                     return "1" if ti else "0"
             if n[0] == "call" and short_callee(n[1]) in ("ne", "eq") and len(n[2]) == 2:
                 a = atom(n[2][0])
@@ -179,20 +184,24 @@ def run(ctx):
                 if a is not None and b2 is not None:
                     r = (a != b2) if short_callee(n[1]) == "ne" else (a == b2)
                     return "1" if r else "0"
-            if n[0] == "bin" and n[1] in ("Ne", "Eq"):
+            if n[0] == "bin" and n[1] in ("Ne", "Eq", "BitAnd", "BitOr", "BitXor"):
                 a = atom(n[2])
                 b2 = atom(n[3])
                 if a is not None and b2 is not None:
-                    r = (a != b2) if n[1] == "Ne" else (a == b2)
+                    r = {"Ne": a != b2, "Eq": a == b2, "BitAnd": a == "1" and b2 == "1", "BitOr": a == "1" or b2 == "1", "BitXor": a != b2}[n[1]]
                     return "1" if r else "0"
+            if n[0] == "k" and n[1] in ("true", "false"):
+                return "1" if n[1] == "true" else "0"
             return None
-        r = TB.eval_return(fsc, atom)
-        if isinstance(r, tuple) and r and r[0] == "stuck":
-            raise AnalysisError("envelope membership: cannot evaluate for (%s, %s, %s): %s" % (bnd, ti, ni, r[1]))
-        v = atom(r)
-        if v is None:
-            raise AnalysisError("envelope membership: result %s not evaluable" % show(r)[:80])
-        got = v == "1"
+        got = True
+        for fsc in fscs:
+            r = TB.eval_return(fsc, atom)
+            if isinstance(r, tuple) and r and r[0] == "stuck":
+                raise AnalysisError("envelope membership: cannot evaluate for (%s, %s, %s): %s" % (bnd, ti, ni, r[1]))
+            v = atom(r)
+            if v is None:
+                raise AnalysisError("envelope membership: result %s not evaluable" % show(r)[:80])
+            got = got and v == "1"
         want = ti if bnd in ("EXTERIOR", "GROUND", "ADIABATIC") else (ti != ni)
         if got != want:
             bad.append("(%s, this inside=%s, next inside=%s) -> %s" % (bnd, ti, ni, got))
@@ -200,14 +209,16 @@ def run(ctx):
         ctx.violation("c11.scope", "c11.scope|envelope-membership", "envelope membership differs from the statement on %d of 16 cases: %s" % (len(bad), "; ".join(bad[:3])), ep.loc())
     else:
         ctx.ok("c11.scope", "c11.scope|envelope-membership", "exterior/ground/adiabatic: this inside; interior: this inside != next inside (16 cases)", ep.loc())
-    # missing space counts as outside: map_or(false, ..)
+    # missing space counts as outside: every map_or default among the membership closures (and the local closures they use) is `false`
     outs = []
-    for b, t in fsc.body.calls():
-        if short_callee(callee_name(t) or "") == "map_or":
-            dflt = strip(fsc.operand(t["args"][1]))
-            outs.append(dflt[0] == "k" and dflt[1] == "false")
-    if len(outs) == 2 and all(outs):
-        ctx.ok("c11.scope", "c11.scope|missing-space", "a missing space counts as outside the envelope (map_or(false, ..) x2)", ep.loc())
+    pool = list(fscs) + [sc for sc in root.all_scopes() if sc.fn.kind == "closure" and any(sc.fn.id == closure_id_of(strip(v)) for f2 in fscs for v in f2.env.values() if closure_id_of(strip(v)))]
+    for fsc in pool:
+        for b, t in fsc.body.calls():
+            if short_callee(callee_name(t) or "") == "map_or":
+                dflt = strip(fsc.operand(t["args"][1]))
+                outs.append(dflt[0] == "k" and dflt[1] == "false")
+    if len(outs) >= 1 and all(outs):
+        ctx.ok("c11.scope", "c11.scope|missing-space", "a missing space counts as outside the envelope (map_or(false, ..) x%d)" % len(outs), ep.loc())
     else:
         ctx.violation("c11.scope", "c11.scope|missing-space", "a missing (adjacent) space is no longer treated as outside", ep.loc())
 
